@@ -344,4 +344,55 @@ theorem mtm_Post {Q : (d : Nat) → MTree r d → Prop} {addr : Nat} {s1 s' : MH
 
 end assemble
 
+/-! ### one call of `(rsOf T).mergeOrRebalance` in a state satisfying `mds_Pre` -/
+
+section call
+variable {r : Nat}
+
+/-- the conclusion of `MMorTail` for ONE call, from `mds_Pre` and the numeric side conditions of
+    `Ob_MergeOrRebalanceChildSlab_heap` (all about MODEL values) -/
+theorem mtm_call {Q : (d : Nat) → MTree r d → Prop} (T addr d : Nat) (m1 : MMetaSlab (MTree r d)) (x : Option DX)
+    (child' : MTree r d) (k u : Nat) (s1 : MHSt r)
+    (hp : mds_Pre Q addr s1 d m1) (hck : m1.children[k]? = some child')
+    (hsz : Gen.mapSlabHeaderSize ≤ m1.hdr.size)
+    (hfit : mrm_MorFit T d m1 child' k u) (hfc : mr_RootFit d child')
+    (hsize : ∀ i t, (i + 1 = k ∨ i = k + 1) → m1.children[i]? = some t → (MTree.hdr d t).size < 2^32)
+    (hLend : ∀ t, 0 < k → m1.children[k - 1]? = some t → MTree.canLendToRight T d t u = true → msl_LendOK T d t child')
+    (hBorrow : ∀ t, m1.children[k + 1]? = some t → MTree.canLendToLeft T d t u = true → msl_BorrowOK T d child' t)
+    (hMergeL : ∀ t, 0 < k → m1.children[k - 1]? = some t → msl_MergeOK d t child')
+    (hMergeR : ∀ t, m1.children[k + 1]? = some t → msl_MergeOK d child' t) :
+    match m1.mergeOrRebalanceChildSlab T child' k u s1.ctx with
+    | .ok (m', c') =>
+      ∃ s' w, (rsOf T).mergeOrRebalance (md_meta m1 x) s1 (md_tree d child' none) (Int.ofNat k) (u32 u) =
+          (none, md_meta m' x, s', w) ∧
+        s'.ctx = c' ∧ s'.popped = s1.popped ∧ mds_Post addr s1 s' (d + 1) m1 m' x
+    | .error e =>
+      ∃ a s' w, (rsOf T).mergeOrRebalance (md_meta m1 x) s1 (md_tree d child' none) (Int.ofNat k) (u32 u) =
+        (some e, a, s', w) := by
+  have hlen : m1.children.length = m1.childHdrs.length := by rw [hp.hdrs, List.length_map]
+  have hk : k < m1.childHdrs.length := by
+    rw [← hlen]; exact (List.getElem?_eq_some_iff.mp hck).1
+  have hheap : ∀ i t h, (i + 1 = k ∨ i = k + 1) → m1.children[i]? = some t → m1.childHdrs[i]? = some h →
+      s1.heap h.id = some (md_tree d t none) := by
+    intro i t h _ ht hh
+    rw [hp.hdrs, List.getElem?_map, ht] at hh
+    have e : MTree.hdr d t = h := by simpa using hh
+    rw [← e]
+    exact (hp.held t (List.mem_of_getElem? ht)).root
+  have hob := Ob_MergeOrRebalanceChildSlab_heap T d m1 x child' k u s1 hlen hk hsz hheap hfit hfc hsize hLend hBorrow
+    hMergeL hMergeR
+  cases hres : m1.mergeOrRebalanceChildSlab T child' k u s1.ctx with
+  | error e =>
+    rw [hres] at hob
+    exact ⟨_, _, _, hob⟩
+  | ok p =>
+    obtain ⟨m', c'⟩ := p
+    rw [hres] at hob
+    have hh := mtm_MorHeld_of_Pre hp child' k hck
+    refine ⟨_, _, hob, mrm_morHeap_ctx T d m1 x child' k u s1 m' c' hres, mtm_morHeap_popped T d m1 x child' k u s1,
+      mtm_Post hp hck (Ob_MergeOrRebalanceChildSlab_heapPost T d m1 x child' k s1 m' c' hh u hres)
+        (mtm_mor_idpost T d m1 x child' k s1 m' c' hh hck u hres) (mtm_morHeap_ctr T d m1 x child' k u s1)⟩
+
+end call
+
 end Atree.TransEq
